@@ -101,6 +101,14 @@ def write_rule(check, P):
                 continue
             check.ok("R1", "write(): clear < send < wait < error check, returns only without stored error")
         else:
+            # whatever the outcome, a statement that was sent has its own acknowledgement on the way: the event must have been cleared
+            # before that send, or the wait is satisfied by an older acknowledgement, the statement's own late 'ok' stays in the event
+            # and the *next* write() returns before the device has seen its statement (stale-acknowledgement, round 7)
+            sent_, cleared_ = ext(path, "device.send"), ext(path, "_ack_event.clear")
+            if sent_ and not any(i < sent_[0][0] for i, _ in cleared_):
+                check.violation("R1", "write:send-without-clear", "write() sends the statement without having cleared the acknowledgement event on a path that "
+                                "ends with an exception: the acknowledgement of this statement is left in the event and satisfies the wait of the next write()", d)
+                continue
             if err_seen is False:
                 pw = path.heap[W.ref("pw").addr]
                 reset = pw.fields.get("_device_error")
